@@ -22,7 +22,7 @@ import sys
 
 from common import KERNEL_TB, REPO, VERIF, Driver, Report, build_driver, check_props, coq_make, known_findings, regen_all, scan_forbidden
 
-SI_DRIVER = ("sidriver", "ExtractSi", ["simodel"], ["Model/SI.vo", "Model/PyPrelude.vo", "Gen/SIHelpers.vo", "Model/Lift.vo", "Proofs/LiftSI.vo", "Proofs/SIZext.vo", "Model/SIUnion.vo"])
+SI_DRIVER = ("sidriver", "ExtractSi", ["simodel"], ["Model/SI.vo", "Model/PyPrelude.vo", "Gen/SIHelpers.vo", "Model/Lift.vo", "Proofs/LiftSI.vo", "Proofs/SIZext.vo", "Model/SIUnion.vo", "Model/SICmp.vo"])
 DOMAIN_SEED = 20260922       # the domains are fixed (independent of VERIF_SEED) so that known findings are stable
 
 
@@ -499,9 +499,24 @@ def real_res(f):
         return ["ok", "1" if r else "0"]
     if isinstance(r, int):
         return ["ok", str(r)]
+    if isinstance(r, list):
+        return ["ok", [[str(x), str(y)] for x, y in r]]
     if r.is_empty:
         return ["ok", [str(r.bits), "bot"]]
     return ["ok", [str(r.bits), str(r.stride), str(r.lower_bound), str(r.upper_bound), "0"]]
+
+
+def real_tri(f):
+    """a BoolResult of the real code as the model's TT / TF / TM"""
+    try:
+        r = f()
+    except ZeroDivisionError:
+        return ["crash", "ZeroDivisionError"]
+    except Exception as ex:  # noqa
+        nm = type(ex).__name__
+        return ["err", {"ClaripyVSAError": "VSAErr", "ClaripyOperationError": "OpErr"}.get(nm, nm)]
+    v = frozenset(r.value)
+    return ["ok", "TT" if v == {True} else "TF" if v == {False} else "TM"]
 
 
 def norm_model(r):
@@ -537,10 +552,31 @@ def correspondence(prop, tier, seed, drv, SI, stats):
                 stats["corr_" + op] += 1
                 if m != r:
                     return {"kind": "model/implementation mismatch", "op": op, "a": keystr(ka), "b": keystr(kb), "model": m, "real": r}
+            # the comparisons and the bounds they are decided on (the real operands are normalised objects:
+            # the model gets what they hold)
+            if a.bits == b.bits:
+                fa = [a.bits, a.stride, a.lower_bound, a.upper_bound, 0]
+                fb = [b.bits, b.stride, b.lower_bound, b.upper_bound, 0]
+                for op in ("ULT", "ULE", "UGT", "UGE", "SLT", "SLE", "SGT", "SGE"):
+                    m = drv.ask(["ucmp", op, fa, fb])
+                    r = real_tri(lambda: getattr(a, op)(b))
+                    stats["corr_ucmp"] += 1
+                    if m != r:
+                        return {"kind": "model/implementation mismatch", "op": op, "a": keystr(ka), "b": keystr(kb), "model": m, "real": r}
         for k in uns:
             if k[1] is None:
                 continue
             a = mk(SI, k)
+            m = drv.ask(["ubounds", [a.bits, a.stride, a.lower_bound, a.upper_bound, 0]])
+            r = real_res(lambda: a._unsigned_bounds())
+            stats["corr_ubounds"] += 1
+            if m != r:
+                return {"kind": "model/implementation mismatch", "op": "_unsigned_bounds", "a": keystr(k), "model": m, "real": r}
+            m = drv.ask(["sbounds", [a.bits, a.stride, a.lower_bound, a.upper_bound, 0]])
+            r = real_res(lambda: a._signed_bounds())
+            stats["corr_sbounds"] += 1
+            if m != r:
+                return {"kind": "model/implementation mismatch", "op": "_signed_bounds", "a": keystr(k), "model": m, "real": r}
             # the real object is normalised on construction: the model gets what the object holds
             m = norm_model(drv.ask(["zext", [a.bits, a.stride, a.lower_bound, a.upper_bound, 0], k[0] + 1]))
             r = real_res(lambda: a.zero_extend(k[0] + 1))
@@ -641,7 +677,7 @@ def run(prop, tier, seed, replay, make_target, rule_text, trusted, assumptions):
             return 1
         return 0
     regen_all()
-    ok_make, log = coq_make([make_target, "Proofs/SIZext.vo", "Proofs/LiftSI.vo", "Proofs/SIUnionSound.vo"])
+    ok_make, log = coq_make([make_target, "Proofs/SIZext.vo", "Proofs/LiftSI.vo", "Proofs/SIUnionSound.vo", "Proofs/SICmpSound.vo"])
     pr = check_props(prop) if ok_make else {"ok": False, "obligations": [
         {"name": prop + "_*", "closed": False, "axioms": ["<does not compile>"], "ok": False}], "log": log[-3000:]}
     rep.obligations(pr, "make %s && coqc -R coq CV coq/Props/%s.v (Print Assumptions)" % (make_target, prop))
